@@ -209,7 +209,7 @@ fn biased_u64_bytes(rng: &mut Rng) -> u64 {
         2 => {
             let k = rng.range(1, 6) as u32;
             // just below a unit boundary at two-decimal rounding
-            1024u64.pow(k) * rng.range(1, 1023) + rng.range(0, 1024u64.pow(k) - 1)
+            1024u64.pow(k).wrapping_mul(rng.range(1, 1023)).wrapping_add(rng.range(0, 1024u64.pow(k) - 1))
         }
         _ => rng.u64_biased(),
     }
